@@ -29,7 +29,7 @@ type c18Case struct {
 func init() {
 	engine.Register(&engine.Check{
 		ID: "C18", Level: "exploration",
-		Rule:        "d in {0,1,3,15} (quick) / 0..15 (thorough) x float lattice (every float with <=5 (quick) / <=7 (thorough) significant mantissa bits and exponent in [-70,70], both signs) placed in points; for every d in 0..15 and m in [-30,30] the decimal tie (m+1/2)*10^-d rounded to float64 and its +-1,+-2 ulp neighbours; 10^k-eps values, +-0, min denormal, 1e300; x one valid geometry per kind in XY/XYZ/XYM/XYZM (WKT) and XY/XYZ/XYZM (GeoJSON, without bbox and with bbox in both option orders) filled from the tie values. Oracle: every emitted number matches -?digits(.digits{1,d})? with no trailing zero; as an exact rational it differs from the exact input ordinate by <= 1/2*10^-d; the output parses (wkt.Unmarshal / JSON) to the same type, structure and number of ordinates; bbox numbers likewise against the exact min/max. distinct_nontrivial = distinct (codec, geometry, d, bbox) tuples Also: LinearRing values given to the WKT encoder directly (closed in X,Y only, fully closed, open) and polygon rings whose closing position carries its own M.",
+		Rule:        "d in 0..15 x float lattice (every float with <=7 (quick) / <=9 (thorough) significant mantissa bits and exponent in [-70,70] / [-100,100], both signs; 8 decimal mantissas x 10^-8..10^12) placed in points; for every d in 0..15 and m in [-30,30] the decimal tie (m+1/2)*10^-d rounded to float64 and its +-1,+-2 ulp neighbours; 10^k-eps values, +-0, min denormal, 1e300; x one valid geometry per kind in XY/XYZ/XYM/XYZM (WKT) and XY/XYZ/XYZM (GeoJSON, without bbox and with bbox in both option orders) filled from the tie values. Oracle: every emitted number matches -?digits(.digits{1,d})? with no trailing zero; as an exact rational it differs from the exact input ordinate by <= 1/2*10^-d; the output parses (wkt.Unmarshal / JSON) to the same type, structure and number of ordinates; bbox numbers likewise against the exact min/max. distinct_nontrivial = distinct (codec, geometry, d, bbox) tuples Also: LinearRing values given to the WKT encoder directly (closed in X,Y only, fully closed, open) and polygon rings whose closing position carries its own M.",
 		Run:         c18Run,
 		Replay:      func(c *engine.Ctx, kind string, raw json.RawMessage) { c18Exec(c, decodeCase[c18Case](raw)) },
 		Assumptions: []string{"finite ordinates; math/big decimal parsing exact"},
@@ -287,18 +287,17 @@ func c18Shapes(l geom.Layout, next func() ref.F) []*ref.G {
 }
 
 func c18Run(c *engine.Ctx) {
-	ds := []int{0, 1, 3, 15}
-	mbits := 5
+	var ds []int
+	for d := 0; d <= 15; d++ {
+		ds = append(ds, d)
+	}
+	mbits, erange := 7, 70
 	if c.Thorough() {
-		ds = nil
-		for d := 0; d <= 15; d++ {
-			ds = append(ds, d)
-		}
-		mbits = 7
+		mbits, erange = 9, 100
 	}
 	// lattice of few-bit floats
 	var lat []float64
-	for e := -70; e <= 70; e++ {
+	for e := -erange; e <= erange; e++ {
 		for m := 1 << (mbits - 1); m < 1<<mbits; m++ {
 			v := math.Ldexp(float64(m), e-(mbits-1))
 			lat = append(lat, v, -v)
@@ -308,6 +307,14 @@ func c18Run(c *engine.Ctx) {
 	for k := -15; k <= 15; k++ {
 		v := math.Pow(10, float64(k))
 		lat = append(lat, math.Nextafter(v, 0), v, math.Nextafter(v, math.Inf(1)), v-v*1e-9, -(v - v*1e-9))
+	}
+	// decimal (non-dyadic) values over 21 orders of magnitude: with many integer digits and a large
+	// d the shortest round-trip text of the float is coarser than half a unit of the d-th place
+	for _, m := range []float64{1.1, 8.3, 1.2345, 9.999999, 7.0000001, 1.23456, 2.5000000001, 6.02214076} {
+		for e := -8; e <= 12; e++ {
+			v := m * math.Pow(10, float64(e))
+			lat = append(lat, v, -v)
+		}
 	}
 	c.Note("lattice_values", len(lat))
 	c.Parallel((len(lat)+1)/2, func(i int) {
